@@ -575,6 +575,27 @@ theorem c03_stall_closes {V : Type} (cd : Codec V) (max : Nat) (hmax : max < 2^3
     | refused e => rfl
     | closed e => rw [hcl] at this; simp [Event.isClosed] at this
 
+/-- **a connection reset inside or between frames**: the complete frames before the reset are
+received, the connection is closed by the unknown network error, nothing else is interpreted -/
+theorem c03_reset_closes {V : Type} (cd : Codec V) (max : Nat) (hmax : max < 2^32)
+    (frames : List (List Nat)) (b : List Nat) (k : Nat)
+    (hf : ∀ f ∈ frames, f.length ≤ max) (hb : b.length ≤ max) (hk : k < (encFrame b).length)
+    (c : Segs) (hc : c.flatten = wire frames ++ (encFrame b).take k) :
+    wasReset (recvAll cd max c) = frames.map (classify cd) ++ [.closed .unknownNet] := by
+  rw [c03_truncated_stream cd max hmax frames b k hf hb hk c hc]
+  unfold wasReset
+  rw [List.map_append]
+  congr 1
+  rw [List.map_congr_left (g := id)]
+  · simp
+  · intro e he
+    obtain ⟨f, _, rfl⟩ := List.mem_map.mp he
+    have := classify_not_closed cd f
+    cases hcl : classify cd f with
+    | deliver v => rfl
+    | refused e => rfl
+    | closed e => rw [hcl] at this; simp [Event.isClosed] at this
+
 /-- the codec the driver runs is sound whenever no sendable buffer is in the refusal table -/
 theorem tableCodec_sound (reg bad : List (List Nat)) (unenc : List (List Nat) := [])
     (h : ∀ v, (Drv.tableCodec reg bad unenc).sendable v = true → bad.contains v = false) :
